@@ -36,6 +36,8 @@ structure ISt where
   blocked : List Nat := []
   /-- connections held in RawReadTracer.Read -/
   traced : List Nat := []
+  /-- connections whose reply does not fit the socket buffers: the goroutine is blocked in Write -/
+  wblocked : List Nat := []
   acceptHeld : Bool := false
   /-- connection -> request in flight -/
   pending : List (Nat × Nat) := []
@@ -48,6 +50,7 @@ def connHeld (i : ISt) (c : Nat) : Bool :=
   match (i.s.conns c).pc with
   | .handling _ _ => i.blocked.contains c
   | .gotRequest _ _ => i.traced.contains c
+  | .writing _ => i.wblocked.contains c
   | _ => false
 
 /-- run the accept loop until it blocks (empty backlog, held callback, mutex taken) or returns -/
@@ -160,6 +163,16 @@ def interpStep (op : SrvOp) (i : ISt) (st : String) : ISt × String :=
     if noClient i k then (i, "nc") else
     let i := quiesce cfg { i with s := step cfg i.s (.clientClose k) }
     (i, "ok")
+  | "b" =>
+    if noClient i k then (i, "nc") else
+    let i := quiesce cfg { i with s := step cfg i.s (.clientSend k id .normal), wblocked := k :: i.wblocked,
+                                  pending := (k, id) :: i.pending }
+    (i, match (i.s.conns k).pc with | .writing _ => "bw" | _ => "eof")
+  | "rb" =>
+    if !i.wblocked.contains k then (i, "-") else
+    let id := i.pendingOf k
+    let i := quiesce cfg { i with wblocked := i.wblocked.erase k }
+    (i, if (i.s.conns k).replied.contains id then s!"r{id}" else "cut")
   | "sh" | "shx" =>
     let s := sweep cfg (step cfg i.s .shutdownCall)
     (quiesce cfg { i with s, shutdownShort := verb == "shx" }, "st")
@@ -184,7 +197,7 @@ def interpStep (op : SrvOp) (i : ISt) (st : String) : ISt × String :=
 
 def windDown (op : SrvOp) (i : ISt) : ISt := Id.run do
   let cfg := op.cfg
-  let mut i := quiesce cfg { i with blocked := [], traced := [], acceptHeld := false }
+  let mut i := quiesce cfg { i with blocked := [], traced := [], wblocked := [], acceptHeld := false }
   for _ in [0:4] do
     i := quiesce cfg { i with s := sweep cfg i.s }
   i := quiesce cfg { i with s := step cfg (step cfg i.s .ctxCancel) .afterFunc }
@@ -281,6 +294,14 @@ def judgeC17 (op : SrvOp) (out : String) : Expect :=
         if b.live.contains k && !b.busy.contains k && o != s!"r{id}" then b.fail s!"step {st}: no reply on a live connection ({o})" else
         if !b.live.contains k && o.startsWith "r" then b.fail s!"step {st}: reply on a connection that should be closed" else b
       | "s" => if o == "st" then { b with busy := k :: b.busy } else b
+      | "b" => if o == "bw" then { b with busy := k :: b.busy } else
+        if b.live.contains k then b.fail s!"step {st}: no reply on a live connection ({o})" else b
+      | "rb" =>
+        if b.busy.contains k then
+          let b := if !o.startsWith "r" then b.fail s!"step {st}: the handler had started but its reply was cut short ({o})" else b
+          { b with busy := b.busy.erase k, live := if b.cancelled || b.shutdownPending then b.live.erase k else b.live,
+                   limbo := if b.shutdownPending then k :: b.limbo else b.limbo }
+        else b
       | "f" =>
         if b.busy.contains k then
           let b := if !o.startsWith "r" then b.fail s!"step {st}: the handler had started but its reply was lost ({o})" else b
@@ -335,6 +356,7 @@ def judgeC17 (op : SrvOp) (out : String) : Expect :=
   | _ => .pred false "unreadable output"
 
 def SrvOp.judge (prop : String) (op : SrvOp) (out : String) : Expect :=
-  if prop == "C17" then judgeC17 op out else .noPanic
+  -- C16 ("a panicking handler never terminates the process or disturbs other connections") uses the same oracle
+  if prop == "C17" || prop == "C16" then judgeC17 op out else .noPanic
 
 end Modbus.Driver
